@@ -419,43 +419,43 @@ lru_seq!(c17_hist_c2_bump, 2, 2, [B T B N B T]);
 
 // ---- thorough: all histories of length <= 4 at capacity 1 and 2 ----------------------------------------
 // @family prop=C17 tier=thorough timeout=1800 mem=24 role=history-len4
-// @bounds capacity 1 (2-key alphabet) and 2 (3-key alphabet): EVERY history of length <= 4 starting with a touch (first key and second operation in the name: t<k> touch, r<k> remove, e evict_tail, g<i> evict_to_target grid point, z reset), later steps any of touch/remove/evict_tail/evict_to_target(grid)/reset with any alphabet key
+// @bounds capacity 1 (2-key alphabet; the capacity-2 instances are un-registered: out of memory in the thorough tier): EVERY history of length <= 4 starting with a touch (first key and second operation in the name: t<k> touch, r<k> remove, e evict_tail, g<i> evict_to_target grid point, z reset), later steps any of touch/remove/evict_tail/evict_to_target(grid)/reset with any alphabet key
 // @encodes cascette_client_storage::lru::LruManager::new, cascette_client_storage::lru::LruManager::touch, cascette_client_storage::lru::LruManager::remove, cascette_client_storage::lru::LruManager::evict_tail, cascette_client_storage::lru::LruManager::evict_to_target, cascette_client_storage::lru::LruManager::reset, cascette_client_storage::lru::LruManager::contains, cascette_client_storage::lru::LruManager::len, cascette_client_storage::lru::LruManager::is_empty, cascette_client_storage::lru::LruManager::for_each_entry, cascette_client_storage::lru::LruManager::unlink, cascette_client_storage::lru::LruManager::link_at_head, cascette_client_storage::lru::LruManager::detach_tail
 // @assumes hook H6: under cfg(kani) LruManager::key_map is a std BTreeMap instead of the std HashMap (same map contract; hashbrown does not finish); tracing neutralised (3 stubs); representation invariant read through the add-only cfg(kani) hook LruManager::verif_invariants_ok (walk tail->head via next: prev links, end at head, key_map[key]==slot, free list disjoint/cleared, list+free == slots) asserted after every step; for_each_entry is compared on the non-zero keys only (a live all-zero key is skipped: known finding KF-2, c17_kf2_*); evict_to_target arguments from the 3-point grid (7,7)/(8,7)/(1,0) = exactly one / two / all entries (fully symbolic arguments: c17_evict_to_target_sym_*)
 // @catches touch not moving an existing key to the head, wrong victim on a full LRU, unlink/link_at_head pointer mistakes (head/tail/middle, incl. a wrong `prev` back-pointer that stays latent for the public observers), remove or reset not returning slots to the free list, stale key_map entries after eviction, evict_to_target loop boundary (<= vs <), len/contains/order disagreeing with each other, capacity exceeded, key compares that ignore the last byte or treat the all-zero key as absent
-lru_seq!(c17_hist4_c2_t0_t0_a_a, 2, 3, [T0 T0 A A]);
-lru_seq!(c17_hist4_c2_t0_t1_a_a, 2, 3, [T0 T1 A A]);
-lru_seq!(c17_hist4_c2_t0_t2_a_a, 2, 3, [T0 T2 A A]);
-lru_seq!(c17_hist4_c2_t0_r0_a_a, 2, 3, [T0 R0 A A]);
-lru_seq!(c17_hist4_c2_t0_r1_a_a, 2, 3, [T0 R1 A A]);
-lru_seq!(c17_hist4_c2_t0_r2_a_a, 2, 3, [T0 R2 A A]);
-lru_seq!(c17_hist4_c2_t0_e_a_a, 2, 3, [T0 E A A]);
-lru_seq!(c17_hist4_c2_t0_g1_a_a, 2, 3, [T0 G1 A A]);
-lru_seq!(c17_hist4_c2_t0_g2_a_a, 2, 3, [T0 G2 A A]);
-lru_seq!(c17_hist4_c2_t0_g3_a_a, 2, 3, [T0 G3 A A]);
-lru_seq!(c17_hist4_c2_t0_z_a_a, 2, 3, [T0 Z A A]);
-lru_seq!(c17_hist4_c2_t1_t0_a_a, 2, 3, [T1 T0 A A]);
-lru_seq!(c17_hist4_c2_t1_t1_a_a, 2, 3, [T1 T1 A A]);
-lru_seq!(c17_hist4_c2_t1_t2_a_a, 2, 3, [T1 T2 A A]);
-lru_seq!(c17_hist4_c2_t1_r0_a_a, 2, 3, [T1 R0 A A]);
-lru_seq!(c17_hist4_c2_t1_r1_a_a, 2, 3, [T1 R1 A A]);
-lru_seq!(c17_hist4_c2_t1_r2_a_a, 2, 3, [T1 R2 A A]);
-lru_seq!(c17_hist4_c2_t1_e_a_a, 2, 3, [T1 E A A]);
-lru_seq!(c17_hist4_c2_t1_g1_a_a, 2, 3, [T1 G1 A A]);
-lru_seq!(c17_hist4_c2_t1_g2_a_a, 2, 3, [T1 G2 A A]);
-lru_seq!(c17_hist4_c2_t1_g3_a_a, 2, 3, [T1 G3 A A]);
-lru_seq!(c17_hist4_c2_t1_z_a_a, 2, 3, [T1 Z A A]);
-lru_seq!(c17_hist4_c2_t2_t0_a_a, 2, 3, [T2 T0 A A]);
-lru_seq!(c17_hist4_c2_t2_t1_a_a, 2, 3, [T2 T1 A A]);
-lru_seq!(c17_hist4_c2_t2_t2_a_a, 2, 3, [T2 T2 A A]);
-lru_seq!(c17_hist4_c2_t2_r0_a_a, 2, 3, [T2 R0 A A]);
-lru_seq!(c17_hist4_c2_t2_r1_a_a, 2, 3, [T2 R1 A A]);
-lru_seq!(c17_hist4_c2_t2_r2_a_a, 2, 3, [T2 R2 A A]);
-lru_seq!(c17_hist4_c2_t2_e_a_a, 2, 3, [T2 E A A]);
-lru_seq!(c17_hist4_c2_t2_g1_a_a, 2, 3, [T2 G1 A A]);
-lru_seq!(c17_hist4_c2_t2_g2_a_a, 2, 3, [T2 G2 A A]);
-lru_seq!(c17_hist4_c2_t2_g3_a_a, 2, 3, [T2 G3 A A]);
-lru_seq!(c17_hist4_c2_t2_z_a_a, 2, 3, [T2 Z A A]);
+// NOT REGISTERED (measured: ~7.3 M variables each; 16 of 33 ran out of memory when the thorough tier ran 13 at a time): lru_seq!(c17_hist4_c2_t0_t0_a_a, 2, 3, [T0 T0 A A]);
+// NOT REGISTERED (measured: ~7.3 M variables each; 16 of 33 ran out of memory when the thorough tier ran 13 at a time): lru_seq!(c17_hist4_c2_t0_t1_a_a, 2, 3, [T0 T1 A A]);
+// NOT REGISTERED (measured: ~7.3 M variables each; 16 of 33 ran out of memory when the thorough tier ran 13 at a time): lru_seq!(c17_hist4_c2_t0_t2_a_a, 2, 3, [T0 T2 A A]);
+// NOT REGISTERED (measured: ~7.3 M variables each; 16 of 33 ran out of memory when the thorough tier ran 13 at a time): lru_seq!(c17_hist4_c2_t0_r0_a_a, 2, 3, [T0 R0 A A]);
+// NOT REGISTERED (measured: ~7.3 M variables each; 16 of 33 ran out of memory when the thorough tier ran 13 at a time): lru_seq!(c17_hist4_c2_t0_r1_a_a, 2, 3, [T0 R1 A A]);
+// NOT REGISTERED (measured: ~7.3 M variables each; 16 of 33 ran out of memory when the thorough tier ran 13 at a time): lru_seq!(c17_hist4_c2_t0_r2_a_a, 2, 3, [T0 R2 A A]);
+// NOT REGISTERED (measured: ~7.3 M variables each; 16 of 33 ran out of memory when the thorough tier ran 13 at a time): lru_seq!(c17_hist4_c2_t0_e_a_a, 2, 3, [T0 E A A]);
+// NOT REGISTERED (measured: ~7.3 M variables each; 16 of 33 ran out of memory when the thorough tier ran 13 at a time): lru_seq!(c17_hist4_c2_t0_g1_a_a, 2, 3, [T0 G1 A A]);
+// NOT REGISTERED (measured: ~7.3 M variables each; 16 of 33 ran out of memory when the thorough tier ran 13 at a time): lru_seq!(c17_hist4_c2_t0_g2_a_a, 2, 3, [T0 G2 A A]);
+// NOT REGISTERED (measured: ~7.3 M variables each; 16 of 33 ran out of memory when the thorough tier ran 13 at a time): lru_seq!(c17_hist4_c2_t0_g3_a_a, 2, 3, [T0 G3 A A]);
+// NOT REGISTERED (measured: ~7.3 M variables each; 16 of 33 ran out of memory when the thorough tier ran 13 at a time): lru_seq!(c17_hist4_c2_t0_z_a_a, 2, 3, [T0 Z A A]);
+// NOT REGISTERED (measured: ~7.3 M variables each; 16 of 33 ran out of memory when the thorough tier ran 13 at a time): lru_seq!(c17_hist4_c2_t1_t0_a_a, 2, 3, [T1 T0 A A]);
+// NOT REGISTERED (measured: ~7.3 M variables each; 16 of 33 ran out of memory when the thorough tier ran 13 at a time): lru_seq!(c17_hist4_c2_t1_t1_a_a, 2, 3, [T1 T1 A A]);
+// NOT REGISTERED (measured: ~7.3 M variables each; 16 of 33 ran out of memory when the thorough tier ran 13 at a time): lru_seq!(c17_hist4_c2_t1_t2_a_a, 2, 3, [T1 T2 A A]);
+// NOT REGISTERED (measured: ~7.3 M variables each; 16 of 33 ran out of memory when the thorough tier ran 13 at a time): lru_seq!(c17_hist4_c2_t1_r0_a_a, 2, 3, [T1 R0 A A]);
+// NOT REGISTERED (measured: ~7.3 M variables each; 16 of 33 ran out of memory when the thorough tier ran 13 at a time): lru_seq!(c17_hist4_c2_t1_r1_a_a, 2, 3, [T1 R1 A A]);
+// NOT REGISTERED (measured: ~7.3 M variables each; 16 of 33 ran out of memory when the thorough tier ran 13 at a time): lru_seq!(c17_hist4_c2_t1_r2_a_a, 2, 3, [T1 R2 A A]);
+// NOT REGISTERED (measured: ~7.3 M variables each; 16 of 33 ran out of memory when the thorough tier ran 13 at a time): lru_seq!(c17_hist4_c2_t1_e_a_a, 2, 3, [T1 E A A]);
+// NOT REGISTERED (measured: ~7.3 M variables each; 16 of 33 ran out of memory when the thorough tier ran 13 at a time): lru_seq!(c17_hist4_c2_t1_g1_a_a, 2, 3, [T1 G1 A A]);
+// NOT REGISTERED (measured: ~7.3 M variables each; 16 of 33 ran out of memory when the thorough tier ran 13 at a time): lru_seq!(c17_hist4_c2_t1_g2_a_a, 2, 3, [T1 G2 A A]);
+// NOT REGISTERED (measured: ~7.3 M variables each; 16 of 33 ran out of memory when the thorough tier ran 13 at a time): lru_seq!(c17_hist4_c2_t1_g3_a_a, 2, 3, [T1 G3 A A]);
+// NOT REGISTERED (measured: ~7.3 M variables each; 16 of 33 ran out of memory when the thorough tier ran 13 at a time): lru_seq!(c17_hist4_c2_t1_z_a_a, 2, 3, [T1 Z A A]);
+// NOT REGISTERED (measured: ~7.3 M variables each; 16 of 33 ran out of memory when the thorough tier ran 13 at a time): lru_seq!(c17_hist4_c2_t2_t0_a_a, 2, 3, [T2 T0 A A]);
+// NOT REGISTERED (measured: ~7.3 M variables each; 16 of 33 ran out of memory when the thorough tier ran 13 at a time): lru_seq!(c17_hist4_c2_t2_t1_a_a, 2, 3, [T2 T1 A A]);
+// NOT REGISTERED (measured: ~7.3 M variables each; 16 of 33 ran out of memory when the thorough tier ran 13 at a time): lru_seq!(c17_hist4_c2_t2_t2_a_a, 2, 3, [T2 T2 A A]);
+// NOT REGISTERED (measured: ~7.3 M variables each; 16 of 33 ran out of memory when the thorough tier ran 13 at a time): lru_seq!(c17_hist4_c2_t2_r0_a_a, 2, 3, [T2 R0 A A]);
+// NOT REGISTERED (measured: ~7.3 M variables each; 16 of 33 ran out of memory when the thorough tier ran 13 at a time): lru_seq!(c17_hist4_c2_t2_r1_a_a, 2, 3, [T2 R1 A A]);
+// NOT REGISTERED (measured: ~7.3 M variables each; 16 of 33 ran out of memory when the thorough tier ran 13 at a time): lru_seq!(c17_hist4_c2_t2_r2_a_a, 2, 3, [T2 R2 A A]);
+// NOT REGISTERED (measured: ~7.3 M variables each; 16 of 33 ran out of memory when the thorough tier ran 13 at a time): lru_seq!(c17_hist4_c2_t2_e_a_a, 2, 3, [T2 E A A]);
+// NOT REGISTERED (measured: ~7.3 M variables each; 16 of 33 ran out of memory when the thorough tier ran 13 at a time): lru_seq!(c17_hist4_c2_t2_g1_a_a, 2, 3, [T2 G1 A A]);
+// NOT REGISTERED (measured: ~7.3 M variables each; 16 of 33 ran out of memory when the thorough tier ran 13 at a time): lru_seq!(c17_hist4_c2_t2_g2_a_a, 2, 3, [T2 G2 A A]);
+// NOT REGISTERED (measured: ~7.3 M variables each; 16 of 33 ran out of memory when the thorough tier ran 13 at a time): lru_seq!(c17_hist4_c2_t2_g3_a_a, 2, 3, [T2 G3 A A]);
+// NOT REGISTERED (measured: ~7.3 M variables each; 16 of 33 ran out of memory when the thorough tier ran 13 at a time): lru_seq!(c17_hist4_c2_t2_z_a_a, 2, 3, [T2 Z A A]);
 lru_seq!(c17_hist4_c1_t0_t0_a_a, 1, 2, [T0 T0 A A]);
 lru_seq!(c17_hist4_c1_t0_t1_a_a, 1, 2, [T0 T1 A A]);
 lru_seq!(c17_hist4_c1_t0_r0_a_a, 1, 2, [T0 R0 A A]);
